@@ -192,6 +192,19 @@ func (e *Exec) mergeInto(g, s *State, cs *term.Term) bool {
 		}
 		g.heap[hf.id] = &Object{V: v, epoch: g.epoch}
 	}
+	if g.pinned != nil {
+		for k, v := range g.pinned {
+			if sv, ok := s.pinned[k]; !ok || sv != v {
+				delete(g.pinned, k)
+			}
+		}
+		for k, v := range g.pinName {
+			if sv, ok := s.pinName[k]; !ok || sv != v {
+				delete(g.pinName, k)
+			}
+		}
+		g.pinModel = nil
+	}
 	if g.conc != nil {
 		for k, v := range g.conc {
 			if sv, ok := s.conc[k]; !ok || sv != v {
